@@ -88,6 +88,10 @@ def grafts(backend: str, s) -> Dict[str, List[Tuple[str, Callable]]]:
     add("deltaR_3_args", "num", lambda g, env, J, E: f"DeltaR({obj(g, env, J, E)}.eta(), {obj(g, env, J, E)}.phi(), 1.0)")
     add("collection_2_args", "num", lambda g, env, J, E: (f"{E}.{coll}('A', 'B').Count()" if E else f"DeltaR(1.0)"))
     add("collection_int_arg", "num", lambda g, env, J, E: (f"{E}.{coll}(22).Count()" if E else f"DeltaR(1.0, 2.0)"))
+    # one string plus further arguments: what becomes of 30000.0? nothing in the generated code can express it
+    add("collection_str_plus_number", "num", lambda g, env, J, E: (f"{E}.{coll}('A', 30000.0).Count()" if E else f"DeltaR(1.0, 2.0, 3.0)"))
+    add("collection_str_plus_bool", "num", lambda g, env, J, E: (f"{E}.{coll}('A', True).Count()" if E else f"DeltaR(1.0, 2.0, 3.0, 4.0, 5.0)"))
+    add("collection_number_then_str", "num", lambda g, env, J, E: (f"{E}.{coll}(0, 'A').Count()" if E else f"DeltaR()"))
     add("math_dot", "num", lambda g, env, J, E: f"math.sin({fillers(g, env)[0]})")
     add("unknown_function", "num", lambda g, env, J, E: f"no_such_function({fillers(g, env)[0]})")
     add("lambda_as_value", "num", lambda g, env, J, E: f"(lambda q: q)")
@@ -157,7 +161,7 @@ BAD_METADATA = [
     ("md_job_script_missing_dep", {"metadata_type": "add_job_script", "name": "b", "script": ["x"], "depends_on": ["nope"]}),
     ("md_cpp_function_no_code", {"metadata_type": "add_cpp_function", "name": "f", "include_files": [], "arguments": ["a"], "return_type": "double"}),
     ("md_enum_no_values", {"metadata_type": "define_enum", "namespace": "N", "name": "E"}),
-    ("md_collection_extra_key", None), ("md_collection_missing_key", None), ("md_collection_element_inconsistent", None), ("md_collection_other_backend", None),
+    ("md_collection_extra_key", None), ("md_collection_key_of_other_backend", None), ("md_collection_missing_key", None), ("md_collection_element_inconsistent", None), ("md_collection_other_backend", None),
 ]
 
 
@@ -180,6 +184,8 @@ def metadata_cases(backend: str, s) -> List[Tuple[str, str]]:
             q = f"Select(MetaData(ds, {{md}}), lambda e: e.MyColl('X').Count())"
             if name == "md_collection_extra_key":
                 md = dict(base, bogus_key=1)
+            elif name == "md_collection_key_of_other_backend":
+                md = dict(base, **({"element_pointer": False} if backend == "atlas" else {"link_libraries": ["xAODJet"]}))
             elif name == "md_collection_missing_key":
                 md = {k: v for k, v in base.items() if k != "container_type"}
             elif name == "md_collection_element_inconsistent":
